@@ -395,8 +395,8 @@ def r6(ctx):
     f = ctx.fn(repo.func(ARB + ".manage_workers"))
     g = f.cfg
     # spawn iff len(WORKERS) < num_workers
-    sp = [n for c in calls_to(repo, f, ARB + ".spawn_workers") for n in nodes_with(f, c)]
-    ctx.need(sp, "C03.R6: manage_workers never calls spawn_workers")
+    sp = [n for c in calls_to(repo, f, [ARB + ".spawn_workers", ARB + ".spawn_worker"]) for n in nodes_with(f, c)]
+    ctx.need(sp, "C03.R6: manage_workers never spawns")
 
     def lt_recog(e):
         c = compare(e)
